@@ -83,7 +83,7 @@ CHECKS = {
     ),
     'C07': dict(
         level='exploration',
-        units=[U('^TestC07_EncoderConforms$', (4, 6000), (6, 40000)), U('^TestC07_DecoderAcceptsGrammar$', (8, 3000), (9, 20000)), U('^TestC07_FarIndexes$', (2, 3000), (1, 100000)), U('^TestC07_PlainDecodesExactLongCount$', (2, 5000), (2, 100000)), U('^TestC07_PowerOfTwoIndexes$', (2, 4000), (2, 100000)), F('FuzzC07Grammar', 120)],
+        units=[U('^TestC07_EncoderConforms$', (4, 6000), (6, 40000)), U('^TestC07_DecoderAcceptsGrammar$', (8, 3000), (9, 20000)), U('^TestC07_FarIndexes$', (2, 3000), (1, 100000)), U('^TestC07_PlainDecodesExactLongCount$', (2, 5000), (2, 100000)), U('^TestC07_PowerOfTwoIndexes$', (2, 4000), (2, 100000)), U('^TestC07_BalancedWeights$', (1, 4000), (2, 100000)), F('FuzzC07Grammar', 120)],
         essential_labels=['direction:A', 'direction:B', 'direction:C', 'layout:1', 'layout:2', 'layout:3', 'stride:negative', 'stride:zero', 'stride:large', 'repeated-index', 'N=0-block', 'repeated-mapping-block', 'mapping-between-bins', 'mapping-after-bins', 'exact-decoder', 'target:paginated', 'target:collow', 'multi-layout', 'producer:exact-variant', 'index-delta-beyond-int32', 'deltas-block-after-many-unit-bins', 'encoding-after-weights-underflowed-to-zero', 'count-block:9-bytes', 'count-block:9th-byte-top-bit', 'direction:power-of-two-indexes'],
         assumptions=COMMON_ASSUMPTIONS + ["harness/refdec is the reading of the format documentation the streams are generated from and compared with", "indexes in generated streams are indexes of the mapping (between those of its smallest and largest indexable values) and stay within a memory-bounded cluster"],
     ),
